@@ -445,6 +445,11 @@ def _generic_run(self, cspec, argvals):
     for j in range(cspec.get('nlog', 0)):
         self.logger.info(f'marker {runid} step {j}')
         self.save_to_run_info({'marker': runid, 'n': j + 1})
+    if not V.helper_thread_logs(slug + '/lazy'):
+        # the standard idiom with lazily formatted arguments: the message shows the argument as it was when it was logged
+        progress = {'done': 0}
+        self.logger.info('marker %s progress %s', runid, progress)
+        progress['done'] = 7
     if V.helper_thread_logs(slug):
         # part of the body's work is done by a helper thread it starts and joins (a pool, parallel_map): what that thread logs belongs to the run
         import threading
